@@ -172,7 +172,10 @@ def run(tier, seed):
     # the same text through the library interface (eval_file), from the same unrelated cwd
     jobs = [{"id": "f%d" % i, "interps": [{"stdlib": False, "natives": False}], "steps": [{"file": c["arg"]}], "fuel": 200000} for i, c in enumerate(cases)]
     drecs = core.run_jobs(jobs, "dev", timeout=900 if tier == "quick" else 3000, tag="c17", env_extra={"__cwd": cwd})
-    for c, (rc, out, err), rec in zip(cases, outs, drecs):
+    # ... and the same TEXT handed to eval as one string (programs that import the library beside the file need the program directory: skipped here)
+    sjobs = [{"id": "s%d" % i, "interps": [{"stdlib": False, "natives": False}], "steps": [{"src": c["text"]}], "fuel": 200000} for i, c in enumerate(cases)]
+    srecs = core.run_jobs(sjobs, "dev", timeout=900 if tier == "quick" else 3000, tag="c17s")
+    for c, (rc, out, err), rec, srec in zip(cases, outs, drecs, srecs):
         ctx.evaluations += 1
         so = out.decode("utf8", "replace"); se = ANSI.sub("", err.decode("utf8", "replace"))
         key = "%s|%s|%r|%s|%s|%s" % (c["kind"], c["forms"][c["fail"]] if c["fail"] is not None else "-", c["eol"], c["final"], "rel" if c["rel"] else "abs", c["lib"])
@@ -222,6 +225,19 @@ def run(tier, seed):
                     if toks and not any(within(loc, t.start, t.end) for t in toks):
                         ctx.violation(dict(base, what="LINE:COL of an unbound-variable diagnostic is not at the offending identifier", reported=list(loc),
                                            token_at=[[list(t.start), list(t.end)] for t in toks], dedupe="loc-token"), replay); continue
+        sstep = srec["steps"][0] if srec and "steps" in srec and not c["lib"] else None
+        if sstep is not None and step is not None:
+            # the text evaluated as a string: same output, same failure, same message and same LINE:COL as the program file
+            a, b = step.get("err") or {}, sstep.get("err") or {}
+            same = step.get("out", "") == sstep.get("out", "") and (a.get("kind"), a.get("msg")) == (b.get("kind"), b.get("msg")) and a.get("loc") == b.get("loc")
+            if not same and a.get("kind") == b.get("kind") == "Syntax.UnexpectedEnd" and not c["text"].endswith(("\n", "\r")) and b.get("loc") and a.get("loc") == [b["loc"][0] + 1, 1]:
+                # a file whose last line has no line terminator is read as if it had one: the end of input is then the start of the next line
+                same = step.get("out", "") == sstep.get("out", "") and a.get("msg") == b.get("msg")
+            if not same:
+                ctx.violation(dict(base, what="the program file does not evaluate exactly as the same text given to eval as a string (output, error, message or location differ)",
+                                   file={"out": step.get("out", "")[-120:], "err": a}, string={"out": sstep.get("out", "")[-120:], "err": b},
+                                   dedupe="string-vs-file|%s|%s" % (c["kind"], a.get("loc") == b.get("loc"))), replay); continue
+            ctx.count("agree_with_string_evaluation")
         ctx.count("runs_ok"); ctx.count("runs_ok_" + str(c["kind"]))
         ctx.nontriv(key)
     ctx.legs.append("programs")
